@@ -440,6 +440,12 @@ def _equal_or_same(a, b):
     if a_missing or b_missing:
         # settled before ==: pd.NA == x is pd.NA, which has no truth value
         return a_missing and b_missing
+    # numpy scalars (cells of nullable or object columns) are rounded to a common type before
+    # they are compared, e.g. np.int64(2**53 + 1) == 2.0**53; python numbers compare exactly
+    if isinstance(a, (np.number, np.bool_)):
+        a = a.item()
+    if isinstance(b, (np.number, np.bool_)):
+        b = b.item()
     return a == b or a is b
 
 
